@@ -35,7 +35,7 @@ KINDS = ["inbound_req_basic", "inbound_req_threading", "inbound_req_threading_no
          "dwr_from_node", "rejected_requests", "conn_closed_by_peer", "conn_closed_by_node", "connect_refused",
          "connect_failed_async", "cea_rejected", "cer_rejected_no_common_app", "unknown_peer", "ce_timeout",
          "refused_while_stopping", "late_and_unknown_answers", "conn_with_request_closed", "outbound_req_timeout",
-         "conn_closed_mid_frame"]
+         "conn_closed_mid_frame", "inbound_req_raise", "inbound_req_threading_raise"]
 PEER = "peer1.verif.example"
 
 
@@ -103,7 +103,9 @@ class Kind:
         app = {"tag": "a4", "id": 4, "peers": [PEER]}
         if kind.startswith("inbound_req_threading"):
             app.update(kind="threading", max_threads=0,
-                       behaviour="none" if kind.endswith("none") else "answer")
+                       behaviour="none" if kind.endswith("none") else ("raise" if kind.endswith("raise") else "answer"))
+        if kind == "inbound_req_raise":
+            app.update(behaviour="raise")       # the node answers 5012 itself: the transaction is complete
         node = {"idle_timeout": 5 if kind == "dwr_from_node" else 10 ** 6, "cea_timeout": 3, "cer_timeout": 3,
                 "dwa_timeout": 10 ** 6}
         self.w = World(dict(peers=peers, apps=[app], node=node))
@@ -148,7 +150,8 @@ class Kind:
             h.script_connect("10.1.0.1", 3868, *([outcome] * (n + 5)))
         w.start()
         h.settle()
-        if kind in ("inbound_req_basic", "inbound_req_threading", "inbound_req_threading_none"):
+        if kind in ("inbound_req_basic", "inbound_req_threading", "inbound_req_threading_none", "inbound_req_raise",
+                    "inbound_req_threading_raise"):
             sp = self.connect()
             for i in range(n):
                 hbh, e2e = self.ids()
